@@ -25,7 +25,7 @@ fn some_items(out: &mut Out, w: &mut World, info: &ImplInfo, env: &CfgEnv, head:
             }
             let lean_rel = format!("{head}.{}", ident(&name));
             let req = required.contains(&lean_rel.as_str());
-            out.function(w, Plan { head: head.to_string(), rust_name: name, lean_rel, self_ty: Some(self_ty.clone()), generics: generics.clone(), sig: &f.sig, block: &f.block, required: req, trunc_sub: false });
+            out.function(w, Plan { head: head.to_string(), rust_name: name, lean_rel, self_ty: Some(self_ty.clone()), generics: generics.clone(), sig: &f.sig, block: &f.block, required: req, trunc_sub: false, ext: Default::default() });
         }
     }
     Ok(())
